@@ -230,14 +230,29 @@ type diffResult struct {
 	elapsed time.Duration
 }
 
+// call with a watchdog: a relay that loses frames makes a call hang until its (long) deadline
 func (t *diffTopo) call(hostPort string, token uint32, p *diffPlan) diffResult {
 	t.mu.Lock()
 	t.plans[token] = p
 	t.mu.Unlock()
-	var r diffResult
-	start := time.Now()
 	ctx, cancel := tchannel.NewContextBuilder(p.timeout).Build()
 	defer cancel()
+	done := make(chan diffResult, 1)
+	go func() { done <- t.callCtx(ctx, hostPort, token, p) }()
+	select {
+	case r := <-done:
+		return r
+	case <-time.After(6 * time.Second):
+		cancel()
+		r := <-done
+		r.err, r.code = "no outcome within 6 s (deadline "+p.timeout.String()+"): "+r.err, -2
+		return r
+	}
+}
+
+func (t *diffTopo) callCtx(ctx context.Context, hostPort string, token uint32, p *diffPlan) diffResult {
+	var r diffResult
+	start := time.Now()
 	call, err := t.client.BeginCall(ctx, hostPort, "target", p.method, &tchannel.CallOptions{Format: tchannel.Format(p.format), ShardKey: p.shard, RoutingKey: p.rkey, RoutingDelegate: p.rdel, CallerName: p.caller})
 	fail := func(where string, err error) diffResult {
 		r.err = where + ": " + err.Error()
@@ -412,6 +427,9 @@ func engineRelayDiff(rng *rand.Rand, n int, tier string, o *Out) {
 	}()
 	token := uint32(0)
 	for c := 0; c < n; c++ {
+		if o.fails >= 5 {
+			break // a broken relay fails everywhere: enough evidence, do not wait out every deadline
+		}
 		if c%perTopo == 0 {
 			if t != nil {
 				t.close()
